@@ -326,3 +326,47 @@ Proof.
   intros H. cbv zeta. destruct (reachable_settled evs H sys_init FInv_init SZs_init) as [HF Hs].
   apply settle_idempotent; assumption.
 Qed.
+
+(* ---- a spurious poll as a script event: invisible --------------------------------------------------------------------- *)
+Lemma Stopped_begin s : Stopped s -> Stopped (begin_ev s).
+Proof. exact (fun H => H). Qed.
+Lemma settle_stopped_fix s : Stopped s -> settle s = s.
+Proof. intros H. unfold settle. destruct (hold s || negb (ctx_alive s)); [reflexivity|]. apply stopped_fix. exact H. Qed.
+Lemma begin_ev_idem s : begin_ev (begin_ev s) = begin_ev s.
+Proof. reflexivity. Qed.
+Lemma step_begin s e : step (begin_ev s) e = step s e.
+Proof. unfold step. rewrite begin_ev_idem. reflexivity. Qed.
+
+(* polling an operation future that waits on an empty oneshot, while the Context task is at rest: the event reports
+   Pending, writes nothing, and leaves exactly the state every event starts from - so the rest of the run is the same
+   with or without it, wherever it is inserted *)
+Theorem spurious_poll_event s i o : Stopped s -> alookup i (ops s) = Some o ->
+  (o_phase o = Wait1 /\ o_ch1 o = CEmpty) \/ (o_phase o = Wait2 /\ o_ch2 o = CEmpty) ->
+  step s (EPoll i) = (begin_ev s, [OPend i]) /\ forall e, step (fst (step s (EPoll i))) e = step s e.
+Proof.
+  intros Hst Hl Hw.
+  assert (E : step s (EPoll i) = (begin_ev s, [OPend i])).
+  { unfold step. cbv zeta. rewrite (spurious_op_poll (begin_ev s) i o Hl Hw).
+    rewrite (settle_stopped_fix (begin_ev s) (Stopped_begin s Hst)). reflexivity. }
+  split; [exact E|]. intros e. rewrite E. cbn [fst]. apply step_begin.
+Qed.
+Theorem spurious_stream_event s j st : Stopped s -> alookup j (streams s) = Some st ->
+  st_taken st = true -> st_buf st = [] -> st_sender st = true ->
+  step s (EPollStream j) = (begin_ev s, [ONone j]) /\ forall e, step (fst (step s (EPollStream j))) e = step s e.
+Proof.
+  intros Hst Hl H1 H2 H3.
+  assert (E : step s (EPollStream j) = (begin_ev s, [ONone j])).
+  { unfold step. cbv zeta. rewrite (spurious_stream_poll (begin_ev s) j st Hl H1 H2 H3).
+    rewrite (settle_stopped_fix (begin_ev s) (Stopped_begin s Hst)). reflexivity. }
+  split; [exact E|]. intros e. rewrite E. cbn [fst]. apply step_begin.
+Qed.
+(* hence for whole scripts: inserting the spurious poll between any prefix and any suffix changes neither the final
+   state nor any later observation *)
+Corollary spurious_poll_script s i o rest : Stopped s -> alookup i (ops s) = Some o ->
+  (o_phase o = Wait1 /\ o_ch1 o = CEmpty) \/ (o_phase o = Wait2 /\ o_ch2 o = CEmpty) ->
+  final_state s (EPoll i :: rest) = final_state (begin_ev s) rest /\
+  (forall e rest', rest = e :: rest' -> final_state s (EPoll i :: rest) = final_state s rest).
+Proof.
+  intros Hst Hl Hw. destruct (spurious_poll_event s i o Hst Hl Hw) as [E Hn]. cbn [final_state]. rewrite E. cbn [fst].
+  split; [reflexivity|]. intros e rest' ->. cbn [final_state]. rewrite step_begin. reflexivity.
+Qed.
